@@ -987,6 +987,9 @@ fn main() {
                 break;
             }
             let _ = w;
+            if TIMEOUTS_SEEN.load(Ordering::SeqCst) > 40 {
+                continue; // dozens of sessions timed out (= dozens of violations): the verdict stands, do not spend hours on the rest
+            }
             let mut rng = Rng::new(seed ^ (((k + rng_offset) as u64) << 20)); // per case, independent of the worker
             let evs = if cases[k].numeric {
                 let slot = k % NUM_SERVERS;
@@ -1052,7 +1055,7 @@ fn main() {
         }
     }
     // the server process must have survived everything
-    let n = res.len();
+    let n = cases.len(); // (sessions may have been skipped after many time-outs: keep the case numbers unique)
     t.ev(json!({"ev":"reset","case":n,"hdr":{"src":"server","mode":"","n":0,"big":false}}));
     match &exited {
         Some(st) => t.ev(json!({"ev":"server_exit","status":st})),
